@@ -7,7 +7,7 @@
    written header.  The composition is decided by the correspondence runs of the parser and writer models and by the
    literal round trip through the public API (oracle) on every generated graph. *)
 From Coq Require Import String Ascii List Bool Arith NArith ZArith.
-Require Import PyStr PyInt Sexp Xml M_C09 T_C09 M_C08 M_C08d T_C08 Ns Table M_Parse T_Parse M_Write T_Write.
+Require Import PyStr PyInt Sexp Xml M_C09 T_C09 M_C08 M_C08d T_C08 Ns Table M_Parse T_Parse M_Write T_Write XmlL M_ParseText M_WriteText T_WriteText T_ReadWritten.
 Import ListNotations.
 Open Scope char_scope.
 
@@ -29,9 +29,18 @@ Theorem C05_written_header : forall p w d, write_doc p w = Ok d ->
   (exists attrs req, d_models d = Some [{| me_attrs := (lit "ModelUri", u1) :: attrs; me_required := req |}]) /\ d_aliases d = Some [].
 Proof. exact write_doc_header. Qed.
 
+(* what an XML reader followed by the parser's document reader obtains from the written TEXT is exactly the document write_doc describes
+   (an empty NamespaceUris block is simply absent): the theorems about write_doc are theorems about what any reader sees *)
+Theorem C05_read_written : forall lm p w fname d, classes_ok p = true -> text_clean lm p w = true -> write_doc p w = Ok d ->
+  exists s, write_text lm p w = Ok s /\
+            read_doc fname s = Ok {| d_name := fname; d_uris := match d_uris d with Some ((_ :: _) as u) => Some u | _ => None end;
+                                     d_models := d_models d; d_aliases := d_aliases d; d_nodes := d_nodes d |}.
+Proof. exact read_written. Qed.
+
 Print Assumptions C05_identifier_text.
 Print Assumptions C05_index_translation.
 Print Assumptions C05_shared_references_merge.
 Print Assumptions C05_string_values.
 Print Assumptions C05_integer_values.
 Print Assumptions C05_written_header.
+Print Assumptions C05_read_written.
